@@ -16,7 +16,7 @@ func init() {
 	core.Register(&core.Check{
 		ID: "C20", Level: "other", Title: "Each cross-chain message is executed at most once",
 		Explain: "Sibling template over every implementation of ChainHandler.MakeDepositProposal (enumerated with types.Implements on this run): under the configuration fact NetworkId==MAIN_NET every return carrying a non-nil MakeTxParam with a possibly-nil error is (1) dominated by the pass edge of CheckDoneTx(s,id,chain), (2) preceded on every path by a call PutDoneTx(s,id',chain'), with (3) id≡id' and chain≡chain' as SSA values and chain = params.SourceChainID; (4) every PutDoneTx call is dominated by the CheckDoneTx pass edge (mark only after check). CheckDoneTx/PutDoneTx: the key shapes read and written are identical and CheckDoneTx returns nil only when the stored value is nil. Entrance: a nil txParam is accepted only for the VOTE/RIPPLE routers. NOT decided: that the id passed is the message's cross-chain id on the source chain (part of proof verification, C23–C31).",
-		Run: runC20,
+		Run:     runC20,
 	})
 }
 
